@@ -95,6 +95,10 @@ def probes(n, m, rng):
         add("QSadd_row", "col", "ADDROW h0 1 L pr 1 %d 2" % j)
         add("QSadd_ranged_row", "col", "ADDRROW h0 1 R 2 pr 1 %d 2" % j)
         add("QSadd_rows", "col", "ADDROWS h0 2 1 L pr1 0 2 G pr2 1 %d 2" % j)
+        if n >= 2:
+            # the first row is fine and has entries, the offending index sits in a later row (the harness passes begin arrays with gaps)
+            add("QSadd_rows", "col-later-row", "ADDROWS h0 3 1 L pr1 2 0 1 1 1 2 G pr2 1 0 3 4 L pr3 1 %d 2" % j)
+            add("QSadd_ranged_rows", "col-later-row", "ADDRROWS h0 2 1 R 2 pr1 2 0 1 1 1 2 R 1 pr2 1 %d 2" % j)
         if m:
             add("QSchange_coef", "col", "CHGCOEF h0 0 %d 5" % j)
             add("QSget_coef", "col", "Q h0 coef 0 %d" % j)
@@ -113,6 +117,8 @@ def probes(n, m, rng):
         add("QSdelete_rows", "row", "DELROWS h0 1 %d" % i)
         add("QSadd_col", "row", "ADDCOL h0 1 0 5 pc 1 %d 2" % i)
         add("QSadd_cols", "row", "ADDCOLS h0 2 1 0 5 pc1 0 2 0 5 pc2 1 %d 2" % i)
+        if m >= 2:
+            add("QSadd_cols", "row-later-col", "ADDCOLS h0 3 1 0 5 pc1 2 0 1 1 1 2 0 5 pc2 1 0 3 1 0 5 pc3 1 %d 2" % i)
         add("QSget_binv_row", "row", "BINV h0 %d" % i, "invalid" if not (0 <= i < m) else "any")
         add("QSget_tableau_row", "row", "TABROW h0 %d" % i, "invalid" if not (0 <= i < m) else "any")
         add("QSopt_pivotin_row", "row", "PIVOTINROW h0 1 %d" % i, "invalid" if not (0 <= i < m) else "any")
